@@ -296,6 +296,13 @@ def fam_faults(seed, big):
                             "stdout": b, "stderr": c, "closed_std": closed,
                             "fault": {"kind": "fcntl", "nth": nth, "side": 0, "errno": 24}})
                 i += 1
+    # the child takes its time (1.6 s) before the step that fails: create() still waits for the verdict
+    for (kind, er) in (("execve", 2), ("chdir", 13)):
+        for det in (False, True):
+            out.append({"id": "f%d-slow-%s%s" % (i, kind, "-det" if det else ""), "class": "fault-child-detached" if det else "fault",
+                        "argv": vargv(), "stdin": "pipe", "stdout": "pipe", "stderr": "none", "detached": det, "cwd": hx(SP),
+                        "fault": {"kind": kind, "nth": 1, "side": 1, "errno": er, "delay_us": 1600000}})
+            i += 1
     # the parent is held up right after fork(): the child has long exec'ed when the parent goes on
     for (a, b, c) in (("none", "none", "none"), ("pipe", "pipe", "pipe")):
         for extra in ({"setpgid": True}, {"setpgid": True, "cwd": hx(SP)}, {}, {"detached": True, "setpgid": True}):
